@@ -155,6 +155,8 @@ pub fn ev_op(regs: &mut Regs, out: &mut Out, op: &str, a: usize, b: usize, o: us
     let (ra, rb) = (regs.r[a].as_ref().unwrap(), regs.r[b].as_ref().unwrap());
     guarded(|| match op { "not" => ra.not(), "and" => ra.and(rb), "or" => ra.or(rb), "xor" => ra.xor(rb), _ => unreachable!() })
   };
+  // results of more than 800 cells are not traced (each event must stay cheap for TLC); the block ends there
+  if res.as_ref().map_or(false, |r| r.entries.len() > 800) { regs.set(o, None); return; }
   out.emit(result_event(json!({"ev": "op", "op": op, "a": a, "b": b, "out": o}), &res));
   // keep the spec's resynchronisation rule: a panicked / unusable result leaves the register empty on our side only if
   // the spec also replaces it; the spec then uses its own expected value, so later events on this register are skipped
@@ -246,7 +248,7 @@ fn random_ops(rng: &mut Rng, regs: &mut Regs, out: &mut Out, nops: usize, laws: 
     ev_op(regs, out, op, a, b, o);
     if regs.r[o].is_none() { return; } // a panic: the rest of the block would run on different values than the spec's
     let ncells = regs.r[o].as_ref().unwrap().entries.len();
-    if ncells > 600 { return; } // keep every event cheap for TLC (complements of deep MOCs grow quickly)
+    if ncells > 400 { return; } // keep every event cheap for TLC (complements of deep MOCs grow quickly)
     if views && ncells <= MAX_QUERY_CELLS && rng.below(3) == 0 { ev_view(regs, out, o); }
     if laws && rng.below(4) == 0 {
       let used = regs.used();
